@@ -1720,7 +1720,8 @@ func MarshalNLRI(value bgp.NLRI) (*api.NLRI, error) {
 		}
 	case *bgp.SRPolicyNLRI:
 		nlri.Nlri = &api.NLRI_SrPolicy{SrPolicy: &api.SRPolicyNLRI{
-			Length:        uint32(v.Length),
+			// the API carries the length in bits, SRPolicyNLRI.Length is in octets
+			Length:        uint32(v.Length) * 8,
 			Distinguisher: v.Distinguisher,
 			Color:         v.Color,
 			Endpoint:      v.Endpoint,
